@@ -51,7 +51,7 @@ pub enum BOp {
 
 fn make_challenge(method: u8, verifier: &str) -> PkceCodeChallenge {
     if method == 2 {
-        PkceCodeChallenge::from_code_verifier_plain(&PkceCodeVerifier::new(verifier.to_string()))
+        crate::ops::common::plain_challenge(&PkceCodeVerifier::new(verifier.to_string()))
     } else {
         PkceCodeChallenge::from_code_verifier_sha256(&PkceCodeVerifier::new(verifier.to_string()))
     }
@@ -164,7 +164,7 @@ impl CaseInput for AuthUrlCase {
                         5 | 6 => BOp::Scope(if r.chance(1, 6) { String::new() } else { gen::mixed(r) }),
                         7 => BOp::Scopes((0..r.below(4)).map(|_| if r.chance(1, 6) { String::new() } else { gen::mixed(r) }).collect()),
                         _ => {
-                            let k = if r.chance(1, 3) { r.pick(&["state", "client_id", "scope", "redirect_uri", "response_type", "resource", "resource"]).to_string() } else { gen::mixed(r) };
+                            let k = if r.chance(1, 3) { r.pick(crate::ops::common::SPECIAL_PARAM_NAMES).to_string() } else { gen::mixed(r) };
                             BOp::Extra(k, gen::hostile_s(r))
                         }
                     })
@@ -188,7 +188,7 @@ impl CaseInput for AuthUrlCase {
             scopes: (0..nsc).map(|_| if r.chance(1, 6) { String::new() } else { gen::mixed(r) }).collect(),
             extras: (0..nex)
                 .map(|_| {
-                    let k = if r.chance(1, 4) { r.pick(&["state", "client_id", "scope", "redirect_uri", "response_type"]).to_string() } else { gen::mixed(r) };
+                    let k = if r.chance(1, 4) { r.pick(crate::ops::common::SPECIAL_PARAM_NAMES).to_string() } else { gen::mixed(r) };
                     (k, gen::hostile_s(r))
                 })
                 .collect(),
@@ -207,7 +207,7 @@ impl CaseInput for AuthUrlCase {
     fn exec(&self) -> Exec {
         let mut client = BasicClient::new(ClientId::new(self.id.clone())).set_auth_uri(AuthUrl::new(self.endpoint.clone()).unwrap());
         if let Some(rd) = &self.client_redirect {
-            client = client.set_redirect_uri(RedirectUrl::new(rd.clone()).unwrap());
+            client = client.set_redirect_uri(crate::ops::common::make_redirect(rd, self.order >> 3));
         }
         let calls = Cell::new(0u32);
         // the first invocation yields EXACTLY the case's state (possibly empty, with blanks or reserved characters at either
@@ -285,7 +285,7 @@ impl CaseInput for AuthUrlCase {
                     rq = rq.set_pkce_challenge(c);
                 }
                 BOp::Redirect(o) => {
-                    rq = rq.set_redirect_uri(Cow::Owned(RedirectUrl::new(o.clone()).unwrap()));
+                    rq = rq.set_redirect_uri(Cow::Owned(crate::ops::common::make_redirect(o, self.order >> 5)));
                     override_redirect = Some(o.clone());
                     optoks.push(format!("D {}", hs(o)));
                 }
